@@ -5,6 +5,8 @@ package c11
 import (
 	"encoding/json"
 	"fmt"
+	"io"
+	"log"
 	"runtime"
 	"sort"
 	"strings"
@@ -202,11 +204,19 @@ func check(rec *hx.Recorder, c *faultCase, regions map[string]int64) (string, bo
 			var err error
 			var f *fit.File
 			var fs []*fit.File
+			// every third offset with all decode options on (a debug logger
+			// whose output is discarded, unknown-field and unknown-message
+			// tallies): the options must not change what a cut or a fault
+			// leads to
+			var opts []fit.DecodeOption
+			if k%3 == 1 {
+				opts = []fit.DecodeOption{fit.WithLogger(log.New(io.Discard, "", 0)), fit.WithUnknownFields(), fit.WithUnknownMessages()}
+			}
 			switch e {
 			case eDecode:
-				f, err = fit.Decode(r)
+				f, err = fit.Decode(r, opts...)
 			case eChained:
-				fs, err = fit.DecodeChained(r)
+				fs, err = fit.DecodeChained(r, opts...)
 			case eIntegrity:
 				err = fit.CheckIntegrity(r, false)
 			case eIntegrityHdr:
